@@ -202,6 +202,7 @@ func (s *Subscription) Loaded(resourceSub *rescache.ResourceSubscription, err er
 		s.resourceSub = resourceSub
 		s.typ = resourceSub.GetResourceType()
 		s.state = stateLoaded
+		verifNote("subLoaded", "cid", s.c.CID(), "rid", s.rid)
 
 		s.setResource()
 		if s.err != nil {
@@ -295,10 +296,12 @@ func (s *Subscription) ReleaseRPCResources() {
 
 func (s *Subscription) queueEvents(reason uint8) {
 	s.queueFlag |= reason
+	verifNote("subQueue", "cid", s.c.CID(), "rid", s.rid, "reason", int(reason), "qf", int(s.queueFlag))
 }
 
 func (s *Subscription) unqueueEvents(reason uint8) {
 	s.queueFlag &= ^reason
+	verifNote("subUnqueue", "cid", s.c.CID(), "rid", s.rid, "reason", int(reason), "qf", int(s.queueFlag), "rflag", s.flags&flagReaccess != 0, "qlen", len(s.eventQueue))
 	if s.queueFlag != 0 {
 		return
 	}
@@ -556,19 +559,23 @@ func (s *Subscription) Event(event *rescache.ResourceEvent) {
 
 		// Discard any event prior to resourceSubscription being loaded or disposed
 		if s.resourceSub == nil {
+			verifNote("subEvent", "cid", s.c.CID(), "rid", s.rid, "ev", event.Event, "evp", event, "path", "discard", "qf", int(s.queueFlag), "qlen", len(s.eventQueue))
 			return
 		}
 
 		if s.queueFlag != 0 {
 			s.eventQueue = append(s.eventQueue, event)
+			verifNote("subEvent", "cid", s.c.CID(), "rid", s.rid, "ev", event.Event, "evp", event, "path", "queued", "qf", int(s.queueFlag), "qlen", len(s.eventQueue))
 			return
 		}
 
+		verifNote("subEvent", "cid", s.c.CID(), "rid", s.rid, "ev", event.Event, "evp", event, "path", "process", "qf", int(s.queueFlag), "qlen", len(s.eventQueue))
 		s.processEvent(event)
 	})
 }
 
 func (s *Subscription) processEvent(event *rescache.ResourceEvent) {
+	verifNote("subProc", "cid", s.c.CID(), "rid", s.rid, "ev", event.Event, "evp", event, "ver", int(s.version), "evver", int(event.Version), "qf", int(s.queueFlag), "qlen", len(s.eventQueue))
 	// Discard events targeting a different internal version
 	if s.version != event.Version {
 		return
